@@ -1766,6 +1766,11 @@ class SymEval:
             return base
         if isinstance(base, (int, sp.Integer, float, sp.Float)) and not isinstance(base, bool):
             raise WouldRaise('TypeError: %s is not subscriptable in %s' % (type(base).__name__, norm(n)))
+        if isinstance(base, (int, float)) or (isinstance(base, sp.Basic) and (base.is_number or base.is_Symbol)):
+            # a plain number (what unpacking or integer indexing of an array yields) is not subscriptable and does not support item assignment
+            if self.try_depth > 0:
+                raise _PyRaise('TypeError')
+            raise WouldRaise('TypeError: a number is not subscriptable in %s' % norm(n))
         raise Opaque('subscript of %s: %s' % (type(base).__name__, norm(n)))
 
     def index(self, s, p):
@@ -1897,7 +1902,7 @@ class SymEval:
             except Exception as e:
                 if self.try_depth > 0:
                     raise _PyRaise(type(e).__name__, e)
-                if isinstance(e, ValueError) and ('not aligned' in str(e) or 'could not be broadcast' in str(e) or 'mismatch in its core dimension' in str(e)):
+                if isinstance(e, ValueError) and ('not aligned' in str(e) or 'could not be broadcast' in str(e) or 'mismatch in its core dimension' in str(e) or 'nonzero on 0d arrays' in str(e)):
                     raise WouldRaise('ValueError: %s in %s' % (e, norm(n)))      # numpy refuses these operand shapes for real arrays too
                 raise Opaque('cannot evaluate %s: %s: %s' % (norm(n), type(e).__name__, e))
         raise Opaque('call of %s' % norm(n.func))
